@@ -558,6 +558,8 @@ func (r *Resolver) allocContent(a *ssa.Alloc, _ int, d int) *Term {
 		case *ssa.Store:
 			if x.Addr == a {
 				whole = append(whole, x)
+			} else if x.Val == a {
+				escapes = true // the address itself is stored somewhere (e.g. into a slice handed to a callee)
 			}
 		case *ssa.FieldAddr:
 			if r.fieldAddrWritten(x) {
@@ -648,6 +650,8 @@ func (r *Resolver) allocField(al *ssa.Alloc, fa *ssa.FieldAddr, path []int, d in
 					} else if prefixOf(cur, path) || prefixOf(path, cur) {
 						fstores = append(fstores, x)
 					}
+				} else if x.Val == addr {
+					escapes = true
 				}
 			case *ssa.FieldAddr:
 				if x.X == addr {
@@ -761,24 +765,35 @@ func sameBlockStore(u *ssa.UnOp, a *ssa.Alloc) ssa.Value {
 			}
 		case *ssa.UnOp, *ssa.DebugRef:
 		case *ssa.FieldAddr, *ssa.IndexAddr:
+		case *ssa.Defer:
+			// a deferred call runs at function exit only: it cannot write the local before a later load
 		default:
 			escapes = true // passed to a call, captured by a closure, ...
 		}
 	}
-	for i := idx - 1; i >= 0; i-- {
-		switch x := b.Instrs[i].(type) {
-		case *ssa.Store:
-			if x.Addr == a {
-				return x.Val
-			}
-			if fa, ok := x.Addr.(*ssa.FieldAddr); ok && fa.X == a {
-				return nil
-			}
-		case ssa.CallInstruction:
-			if escapes {
-				return nil
+	// walk backwards through this block and, while unambiguous, through single predecessors
+	for hops := 0; hops < 6; hops++ {
+		for i := idx - 1; i >= 0; i-- {
+			switch x := b.Instrs[i].(type) {
+			case *ssa.Store:
+				if x.Addr == a {
+					return x.Val
+				}
+				if fa, ok := x.Addr.(*ssa.FieldAddr); ok && fa.X == a {
+					return nil
+				}
+			case *ssa.Defer:
+			case ssa.CallInstruction:
+				if escapes {
+					return nil
+				}
 			}
 		}
+		if len(b.Preds) != 1 || b.Preds[0] == b {
+			return nil
+		}
+		b = b.Preds[0]
+		idx = len(b.Instrs)
 	}
 	return nil
 }
